@@ -218,16 +218,20 @@ def run(ctx, chk):
                     break
             chk.require(ok, "Z3", key, body.span, "loop is neither iterator-driven nor a bounded advancing cursor: %s" % why)
     chk.stats["loops"] = nloops
+    if ctx.tier == "thorough":
+        clippy_crosscheck(ctx, chk, inventory, reach)
 
 
 def body_strs(st, fr):
+    """[(source, string term)]: the &str-typed locals of the frame that hold a value at this point; a `&&str` local also
+    offers its pointee.  Sources are stable across paths, the terms are not."""
     out = []
-    for l, v in fr.locals.items():
+    for l, v in sorted(fr.locals.items()):
         ty = fr.body.locals[l]["ty"]
         if ty.startswith("&") and ty.endswith("str"):
-            s = P.norm_str(v)
-            if s not in out:
-                out.append(s)
+            out.append(((l, "val"), P.norm_str(v)))
+            if ty.startswith("&&") or ty.startswith("&'") and "&" in ty[2:]:
+                out.append(((l, "deref"), ("val", ("obj", ("deref", P.norm_str(v))))))
     return out
 
 
@@ -271,8 +275,10 @@ def cursor_progress(backs, lk, body):
             nv = fr.locals.get(l)
             if nv is None or nv == h:
                 continue
-            d = P.Reason(r.facts, r.trace).lower(affine(unsign(nv)).add(affine(h), -1))
-            if (d.k >= 1 and all(c >= 0 for c in d.c.values())) or r.facts.decide_atom(("lt", h, unsign(nv))) is True:
+            RR = P.Reason(r.facts, r.trace)
+            d = RR.lower(affine(unsign(nv)).add(affine(h), -1))
+            if (d.k >= 1 and all(c >= 0 for c in d.c.values())) or r.facts.decide_atom(("lt", h, unsign(nv))) is True \
+                    or RR.le(("bin", "Add", h, Int(1)), unsign(nv))[0]:
                 # bounded: header fact h < something
                 if any(a[0] == "lt" and p is True and a[1] == h for a, p in r.facts.order):
                     good.add(l)
@@ -280,3 +286,83 @@ def cursor_progress(backs, lk, body):
         if not cands:
             return False, "a back-edge path does not advance any bounded cursor: " + "; ".join(r.facts.describe(6))
     return True, "cursor %s" % sorted(cands)
+
+
+CLIPPY_LINTS = ["indexing_slicing", "string_slice", "unwrap_used", "expect_used", "panic", "unreachable", "arithmetic_side_effects",
+                "unimplemented", "todo", "get_unwrap", "integer_division"]
+
+
+def clippy_crosscheck(ctx, chk, inventory, reach):
+    """thorough: an independent inventory (clippy restriction lints, type-resolved by rustc) of panic-capable
+    expressions; every one that lies inside a function of the parser closure must coincide with a site of Z1"""
+    import json
+    import os
+    import subprocess
+    from ..extract import REPO, CACHE
+    db = ctx.db
+    env = dict(os.environ, CARGO_TARGET_DIR=os.path.join(CACHE, "target-clippy"), CARGO_NET_OFFLINE="true")
+    cmd = ["cargo", "+nightly", "clippy", "--offline", "--lib", "--message-format=json", "--", "-A", "clippy::all"]
+    for l in CLIPPY_LINTS:
+        cmd += ["-W", "clippy::" + l]
+    # force a re-lint of the working tree
+    fp = os.path.join(CACHE, "target-clippy", "debug", ".fingerprint")
+    if os.path.isdir(fp):
+        for d in os.listdir(fp):
+            if d.startswith("pricelevel-"):
+                subprocess.run(["rm", "-rf", os.path.join(fp, d)])
+    r = subprocess.run(cmd, cwd=REPO, env=env, capture_output=True, text=True)
+    if r.returncode != 0:
+        chk.fail("Z1", "clippy:run", "", "clippy cross-reference could not run: %s" % r.stderr[-400:], undecided=True)
+        return
+    sites = []
+    for line in r.stdout.splitlines():
+        try:
+            m = json.loads(line)
+        except ValueError:
+            continue
+        if m.get("reason") != "compiler-message":
+            continue
+        msg = m["message"]
+        code = (msg.get("code") or {}).get("code") or ""
+        if not code.startswith("clippy::"):
+            continue
+        for sp in msg["spans"]:
+            if sp["is_primary"]:
+                sites.append((code, sp["file_name"], sp["line_start"], sp["line_end"]))
+    # line ranges of the bodies in the parser closure (closures and nested fns are separate bodies: attribute a line
+    # to the innermost body that covers it)
+    ranges = []
+    for d in reach:
+        b = db.bodies[d]
+        lines = []
+        f0 = b.span.rsplit(":", 2)[0]
+        for blk in b.blocks:
+            for x in blk["stmts"] + [blk["term"]]:
+                sp = x.get("span")
+                if sp and not x.get("exp"):
+                    f, ln, _ = sp.rsplit(":", 2)
+                    if f == f0:
+                        lines.append(int(ln))
+        if lines:
+            ranges.append((f0, min(lines), max(lines), d))
+    inv_lines = {}
+    for (d, bb), ent in inventory.items():
+        f, ln, _ = ent["span"].rsplit(":", 2)
+        inv_lines.setdefault(f, set()).add(int(ln))
+    missed = 0
+    matched = 0
+    for code, f, l0, l1 in sites:
+        owners = [(hi - lo, d) for (ff, lo, hi, d) in ranges if ff == f and lo <= l0 <= hi]
+        if not owners:
+            continue    # not in the parser closure
+        owner = min(owners)[1]
+        near = any(abs(x - l) <= 2 for l in range(l0, l1 + 1) for x in inv_lines.get(f, ()))
+        if near:
+            matched += 1
+        else:
+            missed += 1
+            chk.fail("Z1", "clippy-missed:%s:%s" % (owner, code), "%s:%d" % (f, l0),
+                     "%s reports a panic-capable expression at %s:%d inside the parser closure that the MIR inventory has no site for" % (code, f, l0), undecided=True)
+    chk.stats["clippy_sites_total"] = len(sites)
+    chk.stats["clippy_sites_in_closure_matched"] = matched
+    chk.require(missed == 0, "Z1", "clippy-cross-reference", "", "%d clippy sites in the parser closure are missing from the inventory" % missed)
